@@ -95,6 +95,8 @@ def _simple_expr(e: ast.AST) -> bool:
         return True
     if isinstance(e, ast.Call) and isinstance(e.func, ast.Name) and e.func.id in ("type", "len") and len(e.args) == 1 and not e.keywords:
         return _simple_expr(e.args[0])
+    if isinstance(e, ast.Subscript) and isinstance(e.slice, ast.Constant) and _simple(e.value):
+        return True
     return False
 
 
@@ -692,7 +694,23 @@ class Flattener:
                 if tab is None or not _simple_expr(key):
                     continue
                 ct = self._const_table(tab, fi)
-                if ct is None or not ct[0].keys or not all(isinstance(val, ast.Name) for val in ct[0].values) or any(k is None for k in ct[0].keys):
+                if ct is None and isinstance(tab, ast.Name) and stores.get(tab.id) == 1:
+                    # a local table built once by a dict display and only ever looked up
+                    defs_ = [y for y in ast.walk(node) if isinstance(y, (ast.Assign, ast.AnnAssign)) and isinstance(y.targets[0] if isinstance(y, ast.Assign) else y.target, ast.Name)
+                             and (y.targets[0] if isinstance(y, ast.Assign) else y.target).id == tab.id and isinstance(y.value, ast.Dict)]
+                    uses_ = [y for y in ast.walk(node) if isinstance(y, ast.Name) and y.id == tab.id and isinstance(y.ctx, ast.Load)]
+                    lookups_ = [y for y in ast.walk(node) if (isinstance(y, ast.Call) and isinstance(y.func, ast.Attribute) and y.func.attr == "get" and isinstance(y.func.value, ast.Name) and y.func.value.id == tab.id)
+                                or (isinstance(y, ast.Subscript) and isinstance(y.ctx, ast.Load) and isinstance(y.value, ast.Name) and y.value.id == tab.id)
+                                or (isinstance(y, ast.Compare) and len(y.ops) == 1 and isinstance(y.ops[0], (ast.In, ast.NotIn)) and isinstance(y.comparators[0], ast.Name) and y.comparators[0].id == tab.id)]
+                    if len(defs_) == 1 and len(uses_) == len(lookups_):
+                        ct = (defs_[0].value, None)
+
+                def ok_val(val):
+                    if isinstance(val, ast.Name) or (isinstance(val, ast.Attribute) and _simple(val)):
+                        return True
+                    a_ = val.args if isinstance(val, ast.Lambda) else None
+                    return a_ is not None and not (a_.vararg or a_.kwarg or a_.kwonlyargs or a_.defaults or a_.posonlyargs)
+                if ct is None or not ct[0].keys or not all(ok_val(val) for val in ct[0].values) or any(k is None for k in ct[0].keys):
                     continue
                 lookups[x.targets[0].id] = (ct[0], ct[1], key, soft)
         if not lookups:
@@ -705,22 +723,41 @@ class Flattener:
                     and x.body and isinstance(x.body[-1], (ast.Raise, ast.Return, ast.Continue, ast.Break)) and not x.orelse and x.test.left.id not in guarded:
                 guarded[x.test.left.id] = x  # `if f is None: <leave>` -- a miss never reaches the call
 
+        positive: set[int] = set()
+        for x in ast.walk(node):
+            if isinstance(x, ast.If) and isinstance(x.test, ast.Compare) and isinstance(x.test.left, ast.Name) and x.test.left.id in lookups and len(x.test.ops) == 1 \
+                    and isinstance(x.test.ops[0], ast.IsNot) and isinstance(x.test.comparators[0], ast.Constant) and x.test.comparators[0].value is None:
+                for b in x.body:
+                    for y in ast.walk(b):
+                        if isinstance(y, ast.Call) and isinstance(y.func, ast.Name) and y.func.id == x.test.left.id:
+                            positive.add(id(y))
+
         def chain(call: ast.Call, mk) -> ast.stmt:
             disp, owner, key, soft = lookups[call.func.id]
             arms = []
             for k, fn in zip(disp.keys, disp.values):
                 is_type = isinstance(k, ast.Name) and k.id in ("list", "dict", "tuple", "set", "frozenset", "int", "float", "str", "bytes", "bool", "complex")
                 test = ast.Compare(left=copy.deepcopy(key), ops=[ast.Is() if is_type else ast.Eq()], comparators=[copy.deepcopy(k)])
-                target: ast.AST = ast.Name(id=fn.id, ctx=ast.Load())
-                if owner is not None and fn.id not in fi.module.functions:
-                    target = ast.Attribute(value=ast.Name(id=owner, ctx=ast.Load()), attr=fn.id, ctx=ast.Load())
-                c2 = ast.Call(func=target, args=copy.deepcopy(call.args), keywords=copy.deepcopy(call.keywords))
+                if isinstance(fn, ast.Lambda):
+                    formals = [a.arg for a in fn.args.args]
+                    if len(formals) != len(call.args) or call.keywords or not all(_simple_expr(a) for a in call.args):
+                        return mk(copy.deepcopy(call))  # cannot reduce: leave the dispatch as it is
+                    c2 = _SubstLoad(dict(zip(formals, call.args))).visit(copy.deepcopy(fn.body))
+                elif isinstance(fn, ast.Attribute):
+                    c2 = ast.Call(func=copy.deepcopy(fn), args=copy.deepcopy(call.args), keywords=copy.deepcopy(call.keywords))
+                else:
+                    target: ast.AST = ast.Name(id=fn.id, ctx=ast.Load())
+                    if owner is not None and fn.id not in fi.module.functions:
+                        target = ast.Attribute(value=ast.Name(id=owner, ctx=ast.Load()), attr=fn.id, ctx=ast.Load())
+                    c2 = ast.Call(func=target, args=copy.deepcopy(call.args), keywords=copy.deepcopy(call.keywords))
                 arms.append((test, mk(c2)))
             orelse: list[ast.stmt] = [ast.Raise(exc=ast.Call(func=ast.Name(id="TypeError", ctx=ast.Load()), args=[ast.Constant(value="'NoneType' object is not callable")], keywords=[]), cause=None)] if soft else [ast.Raise(exc=ast.Call(func=ast.Name(id="KeyError", ctx=ast.Load()), args=[copy.deepcopy(key)], keywords=[]), cause=None)]
             if soft and call.func.id in guarded and arms:
                 # the guard `if f is None: <leave>` becomes the final else of the chain (and is dropped below)
                 orelse = copy.deepcopy(guarded[call.func.id].body)
                 used_guards.add(call.func.id)
+            elif soft and id(call) in positive:
+                orelse = []  # the call sits under `if f is not None:` -- a miss does nothing
             for test, st in reversed(arms):
                 orelse = [ast.If(test=test, body=[st], orelse=orelse)]
             return orelse[0]
